@@ -17,6 +17,14 @@ def run_check(tier, seed):
     n = 1500 if tier == "quick" else 60000
 
     cases = []
+    # corpus: inputs that broke something once (zero-padded digit runs beyond u64, Unicode letters, digit-only hashes)
+    RON1 = {"core": [("v", "Major"), ("v", "Minor"), ("v", "Patch")], "extra": [("v", "PreRelease"), ("v", "BumpedBranch")], "build": [("v", "Distance"), ("v", "BumpedCommitHash")]}
+    for br in ["build/0123456789012345678901", "000000000000000000000000000001", "x/00000000000000000000", "09999999999999999999999/a", "ÀÉÎ/õü", "K", "0" * 40, "1" * 40, "0" * 39 + "1"]:
+        for fmt in ("semver", "pep440"):
+            for sch in (["--schema=standard-base-context"], ["--schema=standard-context"], ["--schema-ron=" + zgen.ron_schema(RON1)], ["--schema=calver-base-prerelease-post-dev-context"]):
+                c = {"cmd": "version", "argv": ["--source=none", "--tag-version=1.2.3-rc.2", "--distance=4", "--bumped-branch=" + br, "--bumped-commit-hash=" + br] + sch,
+                     "stdin_obj": None, "ron": dict(RON1, prec=zgen.DEFAULT_PREC) if sch[0].startswith("--schema-ron") else None, "custom": None, "fmt": fmt, "prefix": None}
+                cases.append(c)
     for _ in range(n):
         c = gen_version_case(rng, UNICODE_TEXTS) if rng.random() < 0.7 else gen_flow_text_case(rng, now)
         c["fmt"] = rng.choice(["semver", "pep440"])
